@@ -4,7 +4,8 @@ rewrite to the working tree of /repo (include/**/*.h, src/**/*.c).  Undo with `g
 kinds: shift | flip | rename | step"""
 import glob, re, sys
 kind = sys.argv[1]
-files = glob.glob("/repo/include/**/*.h", recursive=True) + glob.glob("/repo/src/**/*.c", recursive=True)
+root = sys.argv[2] if len(sys.argv) > 2 else "/repo"       # a scratch worktree when given (then run the checks with LCB_REPO=<root>)
+files = glob.glob(root + "/include/**/*.h", recursive=True) + glob.glob(root + "/src/**/*.c", recursive=True)
 n = 0
 for f in files:
     s = open(f, errors="surrogateescape").read()
